@@ -24,6 +24,8 @@ func c21(p *core.Program, r *core.Report) {
 	r.Rule("R3", "every newly owned fragment is planned: each target node's diff is fragsDiff(target fragments, old fragments) in that argument order (all target fragments for a node the old cluster lacks), the diff loop ranges over the target's fragsByHost, and every iteration over a node's diff appends a ResizeSource to that node's list or returns an error")
 	r.Rule("R4", "refused only without a source: the only error return inside the diff loop is under the failed lookup of the fragment in the source map")
 	r.Rule("R5", "cleanup deletes only what is not owned: in holderCleaner.CleanHolder view.deleteFragment is reached only after uint64InSlice(<that fragment's shard>, <cluster.containsShards(index, available shards, this node)>) was tested false")
+	r.Rule("R6", "diff names a member of the right cluster: in cluster.diff the branch that answers remove assigns the node id only from elements of the receiver's node list, the branch that answers add only from the other cluster's")
+	c21DiffNamesTheRightNode(p, r)
 	r.NotDecided = "that the plan is complete and refused only when necessary for every cluster, replica count and shard set (a function of the hash ring: model-checking question); that the source still holds the data at transfer time"
 	pk := p.Pkg("")
 	if pk == nil {
